@@ -1,6 +1,7 @@
 import Thanos.Common.Parse
 import Thanos.Model.Prune
 import Thanos.Model.Pool
+import Thanos.Model.Merge
 /-
   Line-protocol driver of the `proxy` family (C03 C05 C06 C17).
   One request per line, one answer per line; every line is self-contained.
@@ -250,12 +251,191 @@ def handlePool : List String → Option String
 
 end pool
 
+/-! ### C03 / C06
+
+  grammar (byte strings hex encoded, `-` = empty list / empty string, `_` = empty label set):
+    field   := n | <ty>.<data>.<hash>                  hash = Chunk.Hash, or xxhash(data) when that is 0
+    chunk   := <mint>~<maxt>~<raw>~<count>~<sum>~<min>~<max>~<counter>
+    chunks  := chunk ('+' chunk)* | -
+    series  := <labels>@<chunks>                       labels := <name>=<value> (',' …)* | _
+    frame   := S<series> | W<msg> | H<payload> | B<series> ('&' <series>)* | B
+    sframe  := <0|1><frame>                            1 = the proxy-side shard matcher keeps the frame
+    store   := <supportsSharding><supportsWithout><openErr>:<n | r<k> | h<k>>:<recvMsg>,<timeoutMsg>,<openMsg>:<sframe (';' sframe)* | ->
+    stores  := store ('|' store)* | -
+  ops:
+    lt.merge <maxVal> <ints (',') per sequence, sequences separated by '|'>   pkg/losertree on integers
+        -> <merged ints> closed=<leaf positions in close order>
+    merge.dedup <frame (';' frame)*>                   NewResponseDeduplicator over a fixed stream
+        -> <frames>
+    merge.series <lazy> <bufsize> <batch> <limit> <abort> <dedup> <sharded> <without names | -> <stores>
+        -> <ok|aborted|err-open> shape=<b<n>|s|x,…> series=<series (';')> warn=<sorted msgs> hints=<sorted payloads>
+-/
+section merge
+open Thanos.Merge
+
+/-- which `chainSeriesAndRemIdenticalChunks` the driver follows: the code that is in /repo -/
+def fixedDedup : Bool := true
+
+def bytesOfHex? (s : String) : Option Bytes := (hexDecode? s).map (·.map (·.toNat))
+def hexOfBytes (b : Bytes) : String := hexEncode (b.map UInt8.ofNat)
+
+def parseField? (s : String) : Option (Option Field) :=
+  if s = "n" then some none else
+  match splitChar '.' s with
+  | [ty, d, h] => do
+    let ty ← parseNat? ty
+    let d ← bytesOfHex? d
+    -- `z<n>`: Chunk.Hash is 0 and n = xxhash(data) is what the deduplicator computes itself
+    let h ← parseNat? (match h.toList with | 'z' :: r => String.ofList r | _ => h)
+    pure (some { ty := ty, data := d, hash := h })
+  | _ => none
+
+def parseChunk? (s : String) : Option Chunk :=
+  match splitChar '~' s with
+  | [mint, maxt, f0, f1, f2, f3, f4, f5] => do
+    let mint ← parseInt? mint
+    let maxt ← parseInt? maxt
+    let f0 ← parseField? f0
+    let f1 ← parseField? f1
+    let f2 ← parseField? f2
+    let f3 ← parseField? f3
+    let f4 ← parseField? f4
+    let f5 ← parseField? f5
+    pure { mint := mint, maxt := maxt, raw := f0, count := f1, sum := f2, min := f3, max := f4, counter := f5 }
+  | _ => none
+
+def parseBLabel? (s : String) : Option (Bytes × Bytes) :=
+  match splitChar '=' s with
+  | [n, v] => do
+    let n ← bytesOfHex? n
+    let v ← bytesOfHex? v
+    pure (n, v)
+  | _ => none
+
+def parseBLabels? (s : String) : Option Merge.Labels :=
+  if s = "_" then some [] else (listOf ',' s).mapM parseBLabel?
+
+def parseSeries? (s : String) : Option Merge.Series :=
+  match splitChar '@' s with
+  | [l, cs] => do
+    let l ← parseBLabels? l
+    let cs ← (listOf '+' cs).mapM parseChunk?
+    pure { lbls := l, chunks := cs }
+  | _ => none
+
+def parseFrame? (s : String) : Option Frame :=
+  match s.toList with
+  | 'S' :: r => (parseSeries? (String.ofList r)).map .series
+  | 'W' :: r => (bytesOfHex? (String.ofList r)).map .warning
+  | 'H' :: r => (bytesOfHex? (String.ofList r)).map .hints
+  | 'B' :: r => ((listOf '&' (String.ofList r)).mapM parseSeries?).map .batch
+  | _ => none
+
+def parseSFrame? (s : String) : Option (Frame × Bool) :=
+  match s.toList with
+  | '0' :: r => (parseFrame? (String.ofList r)).map (·, false)
+  | '1' :: r => (parseFrame? (String.ofList r)).map (·, true)
+  | _ => none
+
+def parseFailure? (s : String) : Option Failure :=
+  match s.toList with
+  | ['n'] => some .none
+  | 'r' :: r => (parseNat? (String.ofList r)).map .recvErr
+  | 'h' :: r => (parseNat? (String.ofList r)).map .hang
+  | _ => none
+
+def parseStore? (s : String) : Option Store :=
+  match splitChar ':' s with
+  | [flags, fail, msgs, frames] =>
+    match flags.toList.mapM (fun c => parseBool? (String.singleton c)), splitChar ',' msgs with
+    | some [sh, wo, oe], [m1, m2, m3] => do
+      let fail ← parseFailure? fail
+      let m1 ← bytesOfHex? m1
+      let m2 ← bytesOfHex? m2
+      let m3 ← bytesOfHex? m3
+      let frames ← (listOf ';' frames).mapM parseSFrame?
+      pure { supportsSharding := sh, supportsWithout := wo, openErr := oe, failure := fail, frames := frames,
+             recvMsg := m1, timeoutMsg := m2, openMsg := m3 }
+    | _, _ => none
+  | _ => none
+
+def showField : Option Field → String
+  | none => "n"
+  | some f => s!"{f.ty}.{hexOfBytes f.data}"
+
+def showChunk (c : Chunk) : String :=
+  "~".intercalate [toString c.mint, toString c.maxt, showField c.raw, showField c.count, showField c.sum,
+                   showField c.min, showField c.max, showField c.counter]
+
+def showBLabels (l : Merge.Labels) : String :=
+  if l.isEmpty then "_" else ",".intercalate (l.map fun p => s!"{hexOfBytes p.1}={hexOfBytes p.2}")
+
+def showSeries (s : Merge.Series) : String := s!"{showBLabels s.lbls}@{joinWith "+" (s.chunks.map showChunk)}"
+
+def showFrame : Frame → String
+  | .series s => "S" ++ showSeries s
+  | .warning m => "W" ++ hexOfBytes m
+  | .hints m => "H" ++ hexOfBytes m
+  | .batch ss => "B" ++ "&".intercalate (ss.map showSeries)
+
+def insertStr (x : String) : List String → List String
+  | [] => [x]
+  | y :: r => if x ≤ y then x :: y :: r else y :: insertStr x r
+
+def sortStrs (xs : List String) : List String := xs.foldr insertStr []
+
+def shapeOf (fs : List Frame) : String :=
+  joinWith "," (fs.map fun f => match f with
+    | .series _ => "s" | .batch ss => s!"b{ss.length}" | _ => "x")
+
+def showOutcome (fs : List Frame) (sortSeries : Bool) : String :=
+  let warn := sortStrs (fs.filterMap fun f => match f with | .warning m => some (hexOfBytes m) | _ => none)
+  let hints := sortStrs (fs.filterMap fun f => match f with | .hints m => some (hexOfBytes m) | _ => none)
+  let ser := (flatten fs).map showSeries
+  let ser := if sortSeries then sortStrs ser else ser
+  s!"shape={shapeOf fs} series={joinWith ";" ser} warn={joinWith "," warn} hints={joinWith "," hints}"
+
+def lessNat (mx : Nat) (a b : Nat) : Bool :=
+  if a = mx && b ≠ mx then false else if a ≠ mx && b = mx then true else if a = mx && b = mx then true else a < b
+
+def handleMerge : List String → Option String
+  | ["lt.merge", mx, seqs] => do
+    let mx ← parseNat? mx
+    let seqs ← (listOf '|' seqs).mapM (fun s => if s = "_" then some [] else parseNats? ',' s)
+    let t := LoserTree.new seqs mx (lessNat mx)
+    let (out, tf) := LoserTree.drain ((seqs.map List.length).sum + 1) t
+    pure s!"{showNats "," out} closed={showNats "," (tf.closed.map (· - seqs.length))}"
+  | ["merge.dedup", frames] => do
+    let fs ← (listOf ';' frames).mapM parseFrame?
+    pure (joinWith ";" ((dedup fixedDedup fs).map showFrame))
+  | ["merge.series", lazy, _buf, batch, limit, abort, dd, sharded, without, stores] => do
+    let lazy ← parseBool? lazy
+    let batch ← parseNat? batch
+    let limit ← parseNat? limit
+    let abort ← parseBool? abort
+    let dd ← parseBool? dd
+    let sharded ← parseBool? sharded
+    let without ← (listOf ',' without).mapM bytesOfHex?
+    let stores ← (listOf '|' stores).mapM parseStore?
+    let rq : Request := { fixedDedup := fixedDedup, lazy := lazy, batchSize := batch, limit := limit, abort := abort, dedup := dd,
+                          sharded := sharded, without := without }
+    let (out, oc) := proxySeries rq stores
+    pure (match oc with
+      | .ok => s!"ok {showOutcome out (!dd)}"
+      | .aborted => "aborted"
+      | .openFailed => "err-open"
+      | .noStores => "unavailable")
+  | _ => none
+
+end merge
+
 def handle (toks : List String) : String :=
   match toks with
   | [] => "bad-op"
   | op :: _ =>
     if op.startsWith "prune." then (handlePrune toks).getD "bad-op"
     else if op.startsWith "bpool." || op.startsWith "pool." then (handlePool toks).getD "bad-op"
+    else if op.startsWith "lt." || op.startsWith "merge." then (handleMerge toks).getD "bad-op"
     else "bad-op"
 
 end Thanos.Driver.Proxy
